@@ -76,3 +76,15 @@ func limited() bool {
 		return false
 	}
 }
+
+type countScratch struct {
+	count [4]uint16
+}
+
+// readAfterClear reads count[1] below the statement that resets it (R02.22): the carried value is lost.
+func (s *countScratch) readAfterClear() uint32 {
+	s.count[0] = 0
+	s.count[1] = 0
+	carried := uint32(s.count[1])
+	return carried + 1
+}
